@@ -37,6 +37,9 @@ func nearOrigin(r *Rng, entries []string) string {
 		return r.Pick(append([]string{"", "null", "http://other.example", "HTTP://A.EXAMPLE"}, corsDomainPool...))
 	}
 	e := r.Pick(entries)
+	if e == "" {
+		return r.Pick(corsDomainPool) // a blank entry allows nothing: any real origin must be refused
+	}
 	switch r.Intn(10) {
 	case 0, 1:
 		return e
@@ -78,6 +81,12 @@ func genCors(r *Rng) Sx {
 			domains = append(domains, ".*")
 		}
 		domains = r.Shuffle(domains)
+		switch r.Intn(12) {
+		case 0:
+			domains = []string{""} // what strings.Split of an unset setting yields: configured, nothing allowed
+		case 1:
+			domains = append([]string{""}, domains...)
+		}
 	}
 	origin := nearOrigin(r, domains)
 	fn := Ls{}
